@@ -15,58 +15,92 @@ def orderObjs (order : String) (rows : List Row) : List Row :=
 def renderObj (r : ObjOutcome (List Row × Int)) : String :=
   match r with
   | .ok a => renderAnswer a
-  | .err _ => "err"
+  | .err e => errKind e
   | .panic => "panic"
 
-def objSortParses (sort : List SortField) : Bool := sort.all fun f => (objSymbolsDecl.lookup f.name).isSome
+def objSortParses (decl : List (String × SymType)) (sort : List SortField) : Bool :=
+  sort.all fun f => (decl.lookup f.name).isSome
 
-def modelLine (c : Case) (order : String) : String :=
+def boltDecl : List (String × SymType) := wireSchema.filterMap fun (n, i) => if i.isSet then none else some (n, i.ty)
+
+/-- `ast.Parse` against the bolt store accepts the query -/
+def boltParses (c : Case) : Bool :=
+  match c.setFn with
+  | some (_, sym) => setFunctionAccepted (boltIsSet wireSchema sym)
+  | none => atomTyped boltDecl c.filter && sortParses "root" c.sort
+
+/-- `ast.Parse` against the object store of the given variant accepts the query -/
+def objParses (c : Case) (variant : String) : Bool :=
+  match c.setFn with
+  | some (_, sym) => setFunctionAccepted (objIsSet sym)
+  | none => atomTyped (objDeclOf variant) c.filter && objSortParses (objDeclOf variant) c.sort
+
+/-- the sorted-list model of the theorems and the llrb port must agree on every case -/
+def crossCheck (listOut treeOut : String) : String := if listOut == treeOut then listOut else s!"MODEL-SPLIT[{listOut}|{treeOut}]"
+
+def modelLine (c : Case) (order variant : String) : String :=
   match parsePaging c.skip c.limit with
   | .error _ => "bolt=err|obj=err|objc=err"
   | .ok paging =>
     let q : Query := ⟨c.filter, c.sort, paging⟩
-    let bolt := if !sortParses wireSchema c.sort then "err" else renderExcept (queryIdsC Generated.boltzPaging c.bolt q)
-    if !objSortParses c.sort then s!"bolt={bolt}|obj=err|objc=err" else
-    let ost : ObjStore := ⟨objSymbolsDecl, some (orderObjs order ((c.rows.getD []).map (·.row)))⟩
+    -- the sorted-list model of the theorems, cross-checked against the llrb port
+    let boltQ (q : Query) : String :=
+      crossCheck (renderExcept (queryIdsC Generated.boltzPaging c.bolt q)) (renderExcept (queryIdsCT Generated.boltzPaging c.bolt q))
+    let bolt := if !boltParses c then "err" else boltQ q
+    if !objParses c variant then s!"bolt={bolt}|obj=err|objc=err" else
+    -- order `nil`: the store's iterator function returns nil
+    let ost : ObjStore := ⟨objDeclOf variant, if order == "nil" then none else some (orderObjs order ((c.rows.getD []).map (·.row)))⟩
     let pf := Generated.objectzPaging
-    let obj := renderObj (objQuery pf ost q)
+    let objQ (q : Query) : String := crossCheck (renderObj (objQuery pf ost q)) (renderObj (objQueryT pf ost q))
+    let obj := objQ q
     let paging1 := (setPaging pf paging).1
-    let r2 := renderObj (objQuery pf ost { q with paging := paging1 })
+    let r2 := objQ { q with paging := paging1 }
     let paging2 := (setPaging pf paging1).1
     s!"bolt={bolt}|obj={obj}|objc={obj}/{r2}/{renderOpt paging2.skip}:{renderOpt paging2.limit}"
 
-def specLine (c : Case) : String :=
+/-- the specification: the object store answers what the bolt store answers (the page of the satisfying rows in
+    the requested order, and their number).  The three ways an object store can fall short of being "a store
+    holding the same field values" are spelled out: a query mentioning a symbol the object store does not declare
+    is rejected; an object store without an `id` symbol cannot order anything ("no such sort field"). -/
+def specLine (c : Case) (variant : String) : String :=
   match parsePaging c.skip c.limit with
   | .error _ => "bolt=err|obj=err|objc=err"
   | .ok _ =>
-    let berr := !sortParses wireSchema c.sort
-    let oerr := !objSortParses c.sort
-    match newRowComparator wireSchema c.sort with
-    | .ok cmp =>
-      let rows := (c.rows.getD []).map (·.row)
-      let m := rows.filter fun r => sat r c.filter
-      let skip := specSkip c.skip
-      let limit := specLimit c.limit
-      let ans := renderIds (page cmp skip limit m) ++ "#" ++ toString (total m)
-      let state := toString (skip.getD 0) ++ ":" ++ (match limitRows limit with | none => toString maxI64 | some n => toString n)
-      let bolt := if berr then "err" else ans
-      if oerr then s!"bolt={bolt}|obj=err|objc=err" else s!"bolt={bolt}|obj={ans}|objc={ans}/{ans}/{state}"
-    | .error _ => "bolt=err|obj=err|objc=err"
+    let berr := !boltParses c
+    let oerr := !objParses c variant
+    let rows := c.modelRows
+    let m := rows.filter fun r => sat r c.filter
+    let skip := specSkip c.skip
+    let limit := specLimit c.limit
+    let state := toString (skip.getD 0) ++ ":" ++ (match limitRows limit with | none => toString maxI64 | some n => toString n)
+    let ansOf (schema : Schema) (sort : List SortField) : String := match newRowComparator schema sort with
+      | .ok cmp => renderIds (page cmp skip limit m) ++ "#" ++ toString (total m)
+      | .error e => errKind e
+    -- the bolt store answers a query without sort field, or with `id` first, in id order whatever follows (C02)
+    let byIdOnly : Bool := match c.sort with
+      | [] => true
+      | f :: _ => f.name == "id"
+    let bolt := if berr then "err" else ansOf wireSchema (if byIdOnly then c.sort.take 1 else c.sort)
+    if oerr then s!"bolt={bolt}|obj=err|objc=err" else
+    let ans := ansOf ((objDeclOf variant).map fun (n, t) => (n, ⟨t, false⟩)) c.sort
+    s!"bolt={bolt}|obj={ans}|objc={ans}/{ans}/{state}"
 
-def parseLine (line : String) : Option (Case × String) :=
+def parseLine (line : String) : Option (Case × String × String) :=
   match splitSp line with
   | ["o", rows, filter, sort, skip, limit, order] =>
-    (parseCase [rows, filter, sort, skip, limit, "-", "-"]).map fun c => (c, order)
+    (parseCase [rows, filter, sort, skip, limit, "-", "-"]).map fun c => (c, order, "full")
+  | ["o", rows, filter, sort, skip, limit, order, variant] =>
+    (parseCase [rows, filter, sort, skip, limit, "-", "-"]).map fun c => (c, order, variant)
   | _ => none
 
 def step (line : String) : String :=
   match parseLine line with
-  | some (c, order) => modelLine c order
+  | some (c, order, variant) => modelLine c order variant
   | none => "bad-case"
 
 def specStep (line : String) : String :=
   match parseLine line with
-  | some (c, _) => specLine c
+  | some (c, _, variant) => specLine c variant
   | none => "bad-case"
 
 def run (spec : Bool) : IO Unit := forEachLine (if spec then specStep else step)
